@@ -762,6 +762,19 @@ fn samples(thorough: bool) -> Vec<Sample> {
     }
     level = next;
   }
+  // contexts without entries, alone and nested
+  for (f, j) in [
+    ("{}", Js::Obj(vec![])),
+    ("{k: {}}", Js::Obj(vec![("k".into(), Js::Obj(vec![]))])),
+    ("{k: {}, m: \"z\"}", Js::Obj(vec![("k".into(), Js::Obj(vec![])), ("m".into(), Js::Str("z".into()))])),
+    ("[{}]", Js::Arr(vec![Js::Obj(vec![])])),
+    ("[{}, 1]", Js::Arr(vec![Js::Obj(vec![]), Js::Num("1".into())])),
+    ("[[], {}]", Js::Arr(vec![Js::Arr(vec![]), Js::Obj(vec![])])),
+    ("{k: []}", Js::Obj(vec![("k".into(), Js::Arr(vec![]))])),
+    ("{k: [{}], m: {n: {}}}", Js::Obj(vec![("k".into(), Js::Arr(vec![Js::Obj(vec![])])), ("m".into(), Js::Obj(vec![("n".into(), Js::Obj(vec![]))]))])),
+  ] {
+    out.push(Sample { feel: f.to_string(), expected: j, tck: None, expected_tck: None, class: "context:without-entries".into() });
+  }
   // context keys with control characters
   for cp in [0x00u32, 0x07, 0x08, 0x0b, 0x0c, 0x1b, 0x1f] {
     let key = format!("k{}q", char::from_u32(cp).unwrap());
